@@ -1,6 +1,6 @@
 from mindsdb_sql.exceptions import ParsingException
 from mindsdb_sql.parser.ast.base import ASTNode
-from mindsdb_sql.parser.utils import indent
+from mindsdb_sql.parser.utils import indent, node_to_message
 from mindsdb_sql.parser.ast.create import TableColumn
 from mindsdb_sql.parser.ast.select.identifier import Identifier
 from mindsdb_sql.parser.ast.select.constant import Constant
@@ -41,7 +41,7 @@ class Insert(ASTNode):
             return TableColumn(col.value)
         elif isinstance(col, TableColumn):
             return col
-        raise ParsingException(f'Column name is expected, got: {col}')
+        raise ParsingException(f'Column name is expected, got: {node_to_message(col)}')
 
     def columns_to_string(self):
         # names are printed the way identifiers are
